@@ -481,3 +481,97 @@ def broken_theorem(out):
             return "%s:%s" % (m.group(1), m.group(2))
     m = re.search(r'File "\./([^"]+)", line (\d+)', out)
     return "%s:%s" % (m.group(1), m.group(2)) if m else "unknown"
+
+
+
+# ---------------------------------------------------------------- correspondence (model vs implementation)
+
+def impl_driver(ctx, flavor="san", wrap=(), name="htp_driver", main="htp_driver.c", extra_flags=()):
+    key = ("exe", name, flavor, tuple(wrap), tuple(extra_flags))
+    if key not in ctx.objs:
+        ctx.objs[key] = build_exe(ctx, name, os.path.join(HARNESS, main), flavor, wrap=wrap, extra_flags=extra_flags)
+    return ctx.objs[key]
+
+
+def correspond(ctx, suite, cases, flavor="san", shards=None, timeout=1800):
+    """Run implementation (from /repo's working tree) and extracted model on the same case lines.
+    Returns (impl_lines, model_lines, crash) with crash = None | (case_index, rc, stderr_tail)."""
+    if not cases:
+        return [], [], None
+    exe = impl_driver(ctx, flavor)
+    mexe = build_model_driver(ctx)
+    t = time.time()
+    impl, bad = run_sharded(ctx, exe, cases, suite + "-impl", shards=shards, timeout=timeout)
+    impl, ctx.last_traces = strip_traces(impl)
+    t1 = time.time()
+    model, badm = run_sharded(ctx, mexe, cases, suite + "-model", shards=shards, timeout=timeout)
+    if badm is not None:
+        raise CheckError("model driver failed on suite %s case %d: rc=%s %s" % (suite, badm[0], badm[1], badm[2][-500:]))
+    ctx.log("suite %s: %d cases, impl %.1fs, model %.1fs" % (suite, len(cases), t1 - t, time.time() - t1))
+    st = ctx.cov["suites"].setdefault(suite, {"cases": 0, "mismatches": 0})
+    st["cases"] += len(cases)
+    ctx.cov["evaluations"] += len(cases)
+    return impl, model, bad
+
+
+TRACE_RE = re.compile(r" #t=([0-9a-f]+)")
+
+
+def strip_traces(lines):
+    """S-connp / S-multi lines of the implementation carry ' #t=<hex bits of the guarded trace points that fired>'
+    (one per connection); the model has no trace points, so they are removed before comparing and returned OR-ed."""
+    out, tr = [], []
+    for l in lines:
+        bits = 0
+        for m in TRACE_RE.finditer(l):
+            bits |= int(m.group(1), 16)
+        out.append(TRACE_RE.sub("", l) if bits or " #t=" in l else l)
+        tr.append(bits)
+    return out, tr
+
+
+def note_distinct(ctx, keys):
+    """distinct_nontrivial is measured: number of distinct keys added over the run."""
+    s = ctx.__dict__.setdefault("_distinct", set())
+    s.update(keys)
+    ctx.cov["distinct_nontrivial"] = len(s)
+
+
+def sample(ctx, x, limit=8):
+    if len(ctx.cov["samples"]) < limit:
+        ctx.cov["samples"].append(x)
+
+
+def hexs(b):
+    if isinstance(b, str):
+        b = b.encode("latin1")
+    return b.hex() if len(b) else "-"
+
+
+def strings_upto(alphabet, maxlen):
+    """All strings (as bytes) over the alphabet up to maxlen, in canonical order."""
+    import itertools
+    for l in range(maxlen + 1):
+        for t in itertools.product(alphabet, repeat=l):
+            yield bytes(t)
+
+
+def report_crash(ctx, suite, cases, crash):
+    idx, rc, err = crash
+    kind = {86: "AddressSanitizer", 87: "UndefinedBehaviorSanitizer", 88: "LeakSanitizer", -999: "timeout (a call did not return)"}.get(rc, "crash rc=%s" % rc)
+    c = cases[idx] if idx < len(cases) else None
+    return violation(ctx, "crash-%s" % suite, {"kind": "implementation-crash", "suite": suite, "sanitizer": kind,
+                                               "case": c, "case_index": idx, "stderr": err[-3000:]})
+
+
+def standard_epilogue(ctx, pr, checker, rule, assumptions, level="proof"):
+    """Common tail: if the proofs broke and no concrete violation was found, say so."""
+    if not pr["ok"] and not ctx.violations:
+        violation(ctx, "proof-broken", {"kind": "proof-obligation-broken", "theorem_file": broken_theorem(pr["log"]),
+                                        "log_tail": pr["log"][-3000:],
+                                        "note": "searched the generated cases through the oracle; none failed"}, no_input=True)
+    tb = ["Coq 8.16.1 kernel + vm_compute (no native_compute)", "Print Assumptions: " + "; ".join(sorted(set(pr["assumptions"])) or ["(proof build failed)"]),
+          "extraction: ExtrOcamlBasic only (bool/option/unit/list/prod/sumbool/sumor), no Extract Constant",
+          "constants dumper harness/dump_consts.c compiled against /repo and run",
+          "correspondence drivers harness/htp_driver.c (clang ASan+UBSan) and harness/model_driver.ml (ocamlopt)"]
+    return finish(ctx, level, pr["obligations"], pr["discharged"], checker, tb, rule, assumptions)
